@@ -132,7 +132,7 @@ mod packed {
         if shared { format!("td.shared {} {}", deltas.len(), hex(&ser)) } else { format!("td.priv {}", hex(&ser)) }
     }
 
-    fn gen_points(rng: &mut Rng) -> Vec<u16> {
+    pub fn gen_points(rng: &mut Rng) -> Vec<u16> {
         const GAPS: [u32; 14] = [0, 1, 1, 2, 5, 126, 127, 128, 129, 254, 255, 256, 257, 1000];
         let n = match rng.below(8) {
             0 => 1 + rng.below(4) as usize,
@@ -807,7 +807,7 @@ mod e2e {
     }
 
     /// exact tent scalar at `loc` (F2Dot14 bits), OpenType "calculation of the scalar"; (num, den)
-    fn scalar(tents: &[(i16, Option<(i16, i16)>)], loc: &[i16]) -> (i128, i128) {
+    pub fn scalar(tents: &[(i16, Option<(i16, i16)>)], loc: &[i16]) -> (i128, i128) {
         let (mut num, mut den) = (1i128, 1i128);
         for (i, (peak, inter)) in tents.iter().enumerate() {
             let (peak, v) = (*peak as i128, loc[i] as i128);
@@ -819,7 +819,7 @@ mod e2e {
         (num, den)
     }
 
-    struct PtPen(Vec<(f32, f32)>, usize);
+    pub struct PtPen(pub Vec<(f32, f32)>, pub usize);
     impl skrifa::outline::OutlinePen for PtPen {
         fn move_to(&mut self, x: f32, y: f32) { self.0.push((x, y)); }
         fn line_to(&mut self, x: f32, y: f32) { self.0.push((x, y)); }
@@ -911,7 +911,7 @@ mod e2e {
         g
     }
 
-    fn build_font(glyphs: &[Gl], axes: usize) -> Result<(Vec<u8>, Gvar), String> {
+    pub fn build_font(glyphs: &[Gl], axes: usize) -> Result<(Vec<u8>, Gvar), String> {
         use write_fonts::tables::{head::Head, hhea::Hhea, hmtx::Hmtx, hmtx::LongMetric, maxp::Maxp};
         let mut b = GlyfLocaBuilder::new();
         let mut vars = vec![];
@@ -1474,12 +1474,328 @@ mod gdata {
     }
 }
 
+mod apply {
+    //! Application of glyph variation deltas vs Model/GvarApply.lean:
+    //! `TupleVariation::compute_scalar`; `accumulate_sparse_deltas` / `accumulate_dense_deltas`
+    //! (run-at-a-time fast paths) on written and damaged streams; skrifa `simple_glyph::<i32, Fixed>`
+    //! (verif hook) value-exact in 16.16; the unscaled FreeType-style outline (`draw`) vs the model's
+    //! final rounding of those deltas.  Oracles (exact rationals, model independent): the 16.16
+    //! deltas lie within the PROVED error bound of  sum_t S_t * inferred_t(point)  (exact tent scalar
+    //! times the specification's inference); the fast paths agree with the `deltas()` iterator.
+    use super::*;
+    use super::e2e::{Gl, Tup};
+    use font_types::{F2Dot14, GlyphId};
+    use read_fonts::tables::glyf::{PointFlags, PointMarker};
+    use read_fonts::types::{Fixed, Point};
+    use read_fonts::{FontData, FontRead, FontRef};
+    use skrifa::outline::verif_hooks::simple_glyph_deltas_fixed;
+    use skrifa::MetadataProvider;
+
+    fn ints<T: std::fmt::Display>(v: &[T]) -> String { if v.is_empty() { "-".into() } else { join(v) } }
+
+    /// glyph data with one tuple (embedded peak, optional intermediate region, private "all points"
+    /// marker, no deltas) for `compute_scalar`
+    fn scalar_glyph(peak: &[i16], inter: Option<(&[i16], &[i16])>) -> Vec<u8> {
+        let mut hdr: Vec<u8> = vec![0, 1];
+        let ti: u16 = 0x8000 | 0x2000 | if inter.is_some() { 0x4000 } else { 0 };
+        hdr.extend_from_slice(&ti.to_be_bytes());
+        for p in peak { hdr.extend_from_slice(&p.to_be_bytes()); }
+        if let Some((a, b)) = inter { for v in a { hdr.extend_from_slice(&v.to_be_bytes()); } for v in b { hdr.extend_from_slice(&v.to_be_bytes()); } }
+        let mut g: Vec<u8> = vec![0, 1];
+        g.extend_from_slice(&((4 + hdr.len()) as u16).to_be_bytes());
+        g.extend_from_slice(&hdr);
+        g.push(0);
+        g
+    }
+
+    fn scalar_cases(s: &mut Session, rng: &mut Rng, n: usize) {
+        const VALS: [i16; 13] = [0, 1, -1, 4096, 8192, -8192, 12288, 16383, 16384, -16384, -16383, 32767, -32768];
+        for _ in 0..n {
+            let axes = 1 + rng.below(3) as usize;
+            let peak: Vec<i16> = (0..axes).map(|_| if rng.chance(1, 5) { 0 } else { *rng.pick(&VALS) }).collect();
+            let with_inter = rng.chance(1, 2);
+            let (st, en): (Vec<i16>, Vec<i16>) = peak.iter().map(|p| {
+                if rng.chance(3, 4) {
+                    let a = rng.range(-16384, *p as i64) as i16; let b = rng.range(*p as i64, 16384) as i16;
+                    (if rng.chance(1, 4) { *p } else if rng.chance(1, 4) { (*p).min(0) } else { a.min(*p) }, if rng.chance(1, 4) { *p } else if rng.chance(1, 4) { (*p).max(0) } else { b.max(*p) })
+                } else { (*rng.pick(&VALS), *rng.pick(&VALS)) } }).unzip();
+            let ncoord = match rng.below(8) { 0 => axes.saturating_sub(1), 1 => axes + 1, _ => axes };
+            let coords: Vec<i16> = (0..ncoord).map(|i| {
+                let (p, a, b) = (peak.get(i).copied().unwrap_or(0) as i64, st.get(i).copied().unwrap_or(0) as i64, en.get(i).copied().unwrap_or(0) as i64);
+                (match rng.below(10) { 0 => p, 1 => a, 2 => b, 3 => 0, 4 => p + rng.range(-1, 1), 5 => a + rng.range(-1, 1), 6 => b + rng.range(-1, 1), 7 => (a + p) / 2, 8 => (b + p) / 2, _ => rng.range(-16384, 16384) }).clamp(-32768, 32767) as i16 }).collect();
+            let g = scalar_glyph(&peak, if with_inter { Some((&st, &en)) } else { None });
+            let t = super::gdata::craft_table(axes, &[], &g);
+            let cs: Vec<F2Dot14> = coords.iter().map(|c| F2Dot14::from_bits(*c)).collect();
+            let r = catch(|| {
+                let gvar = read_fonts::tables::gvar::Gvar::read(FontData::new(&t)).map_err(|e| e.to_string())?;
+                let vd = gvar.glyph_variation_data(GlyphId::new(0)).map_err(|e| e.to_string())?.ok_or("nodata".to_string())?;
+                let tuple = vd.tuples().next().ok_or("notuple".to_string())?;
+                Ok::<_, String>(match tuple.compute_scalar(&cs) { None => "none".to_string(), Some(f) => f.to_bits().to_string() })
+            });
+            let canon = match r { Ok(Ok(v)) => v, Ok(Err(e)) => format!("err:{e}"), Err(_) => "trap".into() };
+            s.oracle("compute-scalar-total", canon != "trap", || format!("peak {peak:?} inter {with_inter} {st:?} {en:?} coords {coords:?}"), || canon.clone());
+            // exact tent (for well-formed regions): |scalar - 65536 * S| <= (number of rounding steps) / 2
+            // well-formed regions only: start <= peak <= end, not straddling zero (for those the code
+            // follows FreeType: a zero coordinate on an axis with a non-zero peak switches the tuple off)
+            let well = peak.iter().zip(st.iter().zip(&en)).all(|(p, (a, b))| !with_inter || (a <= p && p <= b && !(*a < 0 && *b > 0)));
+            if well && ncoord == axes {
+                let tents: Vec<(i16, Option<(i16, i16)>)> = peak.iter().enumerate().map(|(i, p)| (*p, if with_inter { Some((st[i], en[i])) } else { None })).collect();
+                let (sn, sd) = super::e2e::scalar(&tents, &coords);
+                let steps = peak.iter().zip(&coords).filter(|(p, c)| **p != 0 && p != c).count() as i128;
+                match canon.parse::<i128>() {
+                    Ok(bits) => { let ok = sn != 0 && (2 * (bits * sd - 65536 * sn)).abs() <= steps * sd.abs();
+                        s.oracle("compute-scalar-within-half-ulp-per-axis", ok, || format!("peak {peak:?} inter {with_inter} {st:?} {en:?} coords {coords:?}"), || format!("bits {bits} exact {sn}/{sd} steps {steps}")); }
+                    Err(_) => { // none: exact scalar is 0, or smaller than half an ulp per step
+                        let ok = canon != "none" || sn == 0 || (2 * 65536 * sn).abs() <= (steps + 1) * sd.abs();
+                        s.oracle("compute-scalar-none-only-when-negligible", ok, || format!("peak {peak:?} inter {with_inter} {st:?} {en:?} coords {coords:?}"), || format!("{canon} exact {sn}/{sd}")); }
+                }
+            }
+            s.count(&format!("scalar:{}", if canon == "none" { "none" } else if canon == "65536" { "one" } else { "fraction" }));
+            s.case("TupleVariation::compute_scalar", format!("ap.scalar {axes} {} | {} | {} | {} | {}", with_inter as u8, ints(&peak), ints(&st), ints(&en), ints(&coords)), canon);
+        }
+    }
+
+    fn fmt_pf(buf: &[Point<Fixed>], flags: &[PointFlags]) -> String {
+        join(&buf.iter().zip(flags).map(|(p, f)| format!("{},{},{}", p.x.to_bits(), p.y.to_bits(), f.has_marker(PointMarker::HAS_DELTA) as u8)).collect::<Vec<_>>())
+    }
+
+    /// accumulate_sparse_deltas / accumulate_dense_deltas on the single tuple of a crafted table
+    fn accumulate(pt: &[u8], deltas: &[u8], shared: bool, n: usize, scalar: i32, dense: bool) -> String {
+        let bytes = super::packed::craft_gvar(pt, deltas, shared);
+        let r = catch(|| {
+            let gvar = read_fonts::tables::gvar::Gvar::read(FontData::new(&bytes)).map_err(|e| format!("{e}"))?;
+            let data = gvar.glyph_variation_data(GlyphId::new(0)).map_err(|e| format!("{e}"))?.ok_or("nodata".to_string())?;
+            let Some(t) = data.tuples().next() else { return Ok("notuple".to_string()) };
+            let mut buf = vec![Point::<Fixed>::default(); n];
+            let mut flags = vec![PointFlags::default(); n];
+            Ok::<_, String>(if dense {
+                match t.accumulate_dense_deltas(&mut buf, Fixed::from_bits(scalar)) { Ok(()) => { let v: Vec<String> = buf.iter().map(|p| format!("{},{}", p.x.to_bits(), p.y.to_bits())).collect(); if v.is_empty() { "-".into() } else { v.join(" ") } }, Err(_) => "err".into() }
+            } else {
+                match t.accumulate_sparse_deltas(&mut buf, &mut flags, Fixed::from_bits(scalar)) { Ok(()) => fmt_pf(&buf, &flags), Err(_) => "err".into() }
+            })
+        });
+        match r { Ok(Ok(v)) => v, Ok(Err(e)) => format!("err:{e}"), Err(_) => "trap".into() }
+    }
+
+    fn pick_scalar(rng: &mut Rng) -> i32 { match rng.below(5) { 0 | 1 => 0x10000, 2 => 0x8000, 3 => 1 + rng.below(0x10000) as i32, _ => *rng.pick(&[1, 0xffff, 0x5555, 0x10001, -0x8000]) } }
+
+    fn accumulate_cases(s: &mut Session, rng: &mut Rng, n: usize) {
+        for _ in 0..n {
+            // sparse: explicit points, x then y streams
+            let cap = if rng.chance(1, 6) { 200 } else { 12 };
+            let npts = 1 + rng.below(cap) as usize;
+            let mut pts: Vec<u16> = vec![]; let mut cur = 0u32;
+            for _ in 0..npts { let gap = if rng.chance(1, 8) { 300 } else { 4 }; cur += if rng.chance(1, 10) { 0 } else { 1 + rng.below(gap) as u32 }; pts.push(cur.min(65535) as u16); }
+            let mk = |rng: &mut Rng, len: usize| -> Vec<i32> { let mut v = super::packed::gen_deltas(rng, true); v.resize(len, 0); if rng.chance(1, 3) { for x in v.iter_mut() { if rng.chance(1, 2) { *x = 0; } } } v };
+            let (xs, ys) = (mk(rng, npts), mk(rng, npts));
+            let Ok(pb) = super::packed::write_points(&pts) else { continue };
+            let (Ok(xb), Ok(yb)) = (super::packed::write_deltas(&xs), super::packed::write_deltas(&ys)) else { continue };
+            let mut db = xb.clone(); db.extend_from_slice(&yb);
+            let size = *pts.last().unwrap() as usize + 1;
+            let n_buf = match rng.below(6) { 0 => size.saturating_sub(1 + rng.below(3) as usize), 1 => size + 3, _ => size }.min(2000);
+            let scalar = pick_scalar(rng);
+            let shared = rng.chance(1, 3);
+            let got = accumulate(&pb, &db, shared, n_buf, scalar, false);
+            // oracle: the fast path gives every listed point (first occurrence order irrelevant: sums) its
+            // scaled delta, exactly as the slow iterator lists them
+            let strictly = pts.windows(2).all(|w| w[0] < w[1]);
+            if strictly {
+                let mul = |d: i32| -> i32 { if scalar == 0x10000 { Fixed::from_i32(d).to_bits() } else { (Fixed::from_i32(d) * Fixed::from_bits(scalar)).to_bits() } };
+                let mut want = vec![(0i32, 0i32, 0u8); n_buf];
+                for (i, p) in pts.iter().enumerate() { if let Some(w) = want.get_mut(*p as usize) { *w = (mul(xs[i]), mul(ys[i]), 1); } }
+                let wants = join(&want.iter().map(|w| format!("{},{},{}", w.0, w.1, w.2)).collect::<Vec<_>>());
+                s.oracle("sparse-fast-path-equals-listed-deltas", got == wants, || format!("pts {pts:?} xs {xs:?} ys {ys:?} scalar {scalar} n {n_buf}"), || format!("got {got} want {wants}"));
+            }
+            let mut ser = pb.clone(); ser.extend_from_slice(&db);
+            let reqline = |ser: &[u8], dlen: usize, n: usize, scalar: i32, shared: bool| if shared { format!("ap.sparse {scalar} {n} shared {dlen} {}", hex(ser)) } else { format!("ap.sparse {scalar} {n} priv 0 {}", hex(ser)) };
+            s.case("accumulate_sparse_deltas(written)", reqline(&ser, db.len(), n_buf, scalar, shared), got);
+            // damaged streams: runs that straddle the x/y boundary, truncated data, altered control bytes
+            for _ in 0..2 {
+                let mut d = db.clone();
+                match rng.below(5) {
+                    0 => { let k = rng.below(d.len() as u64) as usize; d.truncate(k); }
+                    1 => { let k = rng.below(d.len() as u64) as usize; d[k] ^= 1 << rng.below(8); }
+                    2 => { if let Ok(all) = { let mut a = xs.clone(); a.extend_from_slice(&ys); super::packed::write_deltas(&a) } { d = all; } }
+                    3 => { d.extend_from_slice(&[0x83, 0x01, 0x05]); }
+                    _ => { let k = rng.below(d.len() as u64) as usize; d[k] = *rng.pick(&[0u8, 0x80, 0xbf, 0x3f, 0x40, 0x7f, 0xc0, 0xff]); }
+                }
+                let got = accumulate(&pb, &d, shared, n_buf, scalar, false);
+                s.oracle("accumulate-sparse-total", got != "trap", || format!("pt {} d {}", hex(&pb), hex(&d)), || got.clone());
+                s.count(&format!("acc-sparse-damaged:{}", if got == "err" { "err" } else if got == "notuple" { "notuple" } else { "ok" }));
+                let mut ser = pb.clone(); ser.extend_from_slice(&d);
+                s.case("accumulate_sparse_deltas(damaged)", reqline(&ser, d.len(), n_buf, scalar, shared), got);
+            }
+            // dense
+            let cap = if rng.chance(1, 6) { 150 } else { 10 };
+            let nd = 1 + rng.below(cap) as usize;
+            let (xs, ys) = (mk(rng, nd), mk(rng, nd));
+            let (Ok(xb), Ok(yb)) = (super::packed::write_deltas(&xs), super::packed::write_deltas(&ys)) else { continue };
+            let mut db = xb.clone(); db.extend_from_slice(&yb);
+            let n_buf = match rng.below(6) { 0 => nd - 1, 1 => nd + 1, _ => nd };
+            let mut d = db.clone();
+            if rng.chance(1, 3) { match rng.below(3) { 0 => { let k = rng.below(d.len() as u64) as usize; d.truncate(k); } 1 => { let k = rng.below(d.len() as u64) as usize; d[k] ^= 1 << rng.below(8); }
+                _ => { if let Ok(all) = { let mut a = xs.clone(); a.extend_from_slice(&ys); super::packed::write_deltas(&a) } { d = all; } } } }
+            let got = accumulate(&[0], &d, false, n_buf, scalar, true);
+            s.oracle("accumulate-dense-total", got != "trap", || hex(&d), || got.clone());
+            s.count(&format!("acc-dense:{}", if got == "err" { "err" } else { "ok" }));
+            s.case("accumulate_dense_deltas", format!("ap.dense {scalar} {n_buf} {}", if d.is_empty() { "-".into() } else { hex(&d) }), got);
+        }
+    }
+
+    fn pts_str(v: &[(i32, i32)]) -> String { if v.is_empty() { "-".into() } else { join(&v.iter().map(|p| format!("{},{}", p.0, p.1)).collect::<Vec<_>>()) } }
+
+    /// hook deltas of glyph `gid` of `table` at `loc`
+    fn hook_deltas(table: &[u8], gid: u32, loc: &[i16], points: &[(i32, i32)], ends: &[u16]) -> Result<Option<Vec<(i32, i32)>>, String> {
+        let cs: Vec<F2Dot14> = loc.iter().map(|c| F2Dot14::from_bits(*c)).collect();
+        let pts: Vec<Point<i32>> = points.iter().map(|p| Point::new(p.0, p.1)).collect();
+        catch(|| {
+            let gvar = read_fonts::tables::gvar::Gvar::read(FontData::new(table)).ok()?;
+            simple_glyph_deltas_fixed(&gvar, GlyphId::new(gid), &cs, &pts, ends).map(|d| d.iter().map(|p| (p.x.to_bits(), p.y.to_bits())).collect())
+        })
+    }
+
+    fn be16(b: &[u8], o: usize) -> usize { ((b[o] as usize) << 8) | b[o + 1] as usize }
+    fn be32(b: &[u8], o: usize) -> usize { (be16(b, o) << 16) | be16(b, o + 2) }
+
+    /// exact expectation and proved error bound (units of 2^-16) for one point and axis
+    /// returns (num, den, bound_num, bound_den)
+    fn exact_and_bound(g: &Gl, loc: &[i16], k: usize, axis: usize) -> (i128, i128, f64) {
+        let pts = g.points();
+        let (mut num, mut den) = (0i128, 1i128);
+        let mut bound = 0f64;
+        for t in &g.tuples {
+            let (sn, sd) = super::e2e::scalar(&t.tents, loc);
+            if sn == 0 { continue; }
+            let steps = t.tents.iter().zip(loc).filter(|((p, _), c)| *p != 0 && p != *c).count() as f64;
+            let nreq = t.req.iter().filter(|r| **r).count();
+            let all = nreq == t.req.len() || nreq == 0;
+            // which points are explicit: decided by the writer (dense or sparse form); inference is the
+            // identity on explicit points, so evaluate the spec on the REQUIRED set when the tuple is sparse;
+            // the caller passes `explicit` via t.req / all through `listed`
+            let _ = all;
+            let (inum, iden, m): (i128, i128, f64) = infer_one(g, t, &pts, k, axis);
+            // value: S * I
+            let (vn, vd) = (sn * inum, sd * iden);
+            num = num * vd + vn * den; den *= vd;
+            let gcd = gcd(num.abs(), den.abs()); if gcd > 1 { num /= gcd; den /= gcd; }
+            bound += steps / 2.0 * (inum as f64 / iden as f64).abs() + m / 2.0;
+        }
+        (num, den, bound)
+    }
+    fn gcd(a: i128, b: i128) -> i128 { if b == 0 { a.max(1) } else { gcd(b, a % b) } }
+
+    thread_local! { static EXPLICIT: std::cell::RefCell<Vec<Vec<bool>>> = std::cell::RefCell::new(vec![]); }
+
+    /// inferred delta (exact) of point k for tuple t on the given axis, with the explicit set taken
+    /// from EXPLICIT (what the file lists), and the distance |c - in1| when interpolated
+    fn infer_one(g: &Gl, t: &Tup, pts: &[(i16, i16)], k: usize, axis: usize) -> (i128, i128, f64) {
+        let ti = g.tuples.iter().position(|x| std::ptr::eq(x, t)).unwrap();
+        let explicit: Vec<bool> = EXPLICIT.with(|e| e.borrow()[ti].clone());
+        let get = |p: (i16, i16)| if axis == 0 { p.0 as i64 } else { p.1 as i64 };
+        if k >= pts.len() { // phantom point
+            return if explicit[k] { (get(t.deltas[k]) as i128, 1, 0.0) } else { (0, 1, 0.0) };
+        }
+        if explicit[k] { return (get(t.deltas[k]) as i128, 1, 0.0); }
+        // contour of k
+        let mut start = 0usize;
+        for c in &g.contours { let e = start + c.len(); if k < e {
+            let idx: Vec<usize> = (start..e).collect();
+            let n = idx.len();
+            let pos = k - start;
+            let prev = (1..=n).map(|d| idx[(pos + n - d) % n]).find(|j| explicit[*j]);
+            let next = (1..=n).map(|d| idx[(pos + d) % n]).find(|j| explicit[*j]);
+            let (Some(a), Some(b)) = (prev, next) else { return (0, 1, 0.0) };
+            let (ca, da, cb, db, c) = (get(pts[a]), get(t.deltas[a]), get(pts[b]), get(t.deltas[b]), get(pts[k]));
+            let f = super::iup::infer_axis(ca, da, cb, db, c);
+            let (lo, hi) = (ca.min(cb), ca.max(cb));
+            let m = if lo < c && c < hi { (c - lo) as f64 } else { 0.0 };
+            return (f.0, f.1, m);
+        } start = e; }
+        (0, 1, 0.0)
+    }
+
+    pub fn simple_cases(s: &mut Session, rng: &mut Rng, glyphs: &[Gl], axes: usize) {
+        let Ok(Ok((data, _))) = catch(|| super::e2e::build_font(glyphs, axes)) else { return };
+        let font = FontRef::new(&data).unwrap();
+        let table = font.table_data(font_types::Tag::new(b"gvar")).unwrap().as_bytes().to_vec();
+        let gvar = read_fonts::tables::gvar::Gvar::read(FontData::new(&table)).unwrap();
+        let n_shared = be16(&table, 6);
+        let sh_off = be32(&table, 8);
+        let shared = table[sh_off.min(table.len())..(sh_off + n_shared * 2 * axes).min(table.len())].to_vec();
+        let mut locs: Vec<Vec<i16>> = vec![vec![16384; axes], vec![-16384; axes]];
+        for g in glyphs { for t in &g.tuples { locs.push(t.tents.iter().map(|x| x.0).collect());
+            locs.push(t.tents.iter().map(|x| (x.0 as i32 * 2 / 3) as i16).collect()); } }
+        for _ in 0..3 { locs.push((0..axes).map(|_| if rng.chance(1, 4) { 0 } else { rng.range(-16384, 16384) as i16 }).collect()); }
+        rng.shuffle(&mut locs);
+        locs.truncate(6);
+        let outlines = font.outline_glyphs();
+        for (gid, g) in glyphs.iter().enumerate() {
+            let pts = g.points();
+            let mut points: Vec<(i32, i32)> = pts.iter().map(|p| (p.0 as i32, p.1 as i32)).collect();
+            points.extend_from_slice(&[(0, 0), (500, 0), (0, 0), (0, 0)]);
+            let ends: Vec<u16> = g.ends().iter().map(|e| *e as u16).collect();
+            let gdata: Vec<u8> = match gvar.data_for_gid(GlyphId::new(gid as u32)) { Ok(Some(d)) => d.as_bytes().to_vec(), _ => vec![] };
+            // which points each tuple lists explicitly (from the file, via the slow iterator)
+            let mut explicit: Vec<Vec<bool>> = vec![];
+            if let Ok(Some(vd)) = gvar.glyph_variation_data(GlyphId::new(gid as u32)) {
+                for t in vd.tuples() { let mut e = vec![false; points.len()]; for d in t.deltas().take(points.len() + 8) { if let Some(x) = e.get_mut(d.position as usize) { *x = true; } } explicit.push(e); }
+            }
+            if explicit.len() != g.tuples.len() { continue; }
+            EXPLICIT.with(|e| *e.borrow_mut() = explicit);
+            for loc in &locs {
+                let real = hook_deltas(&table, gid as u32, loc, &points, &ends);
+                let canon = match &real { Ok(Some(v)) => pts_str(v), Ok(None) => "err".into(), Err(_) => "trap".into() };
+                let input = || format!("loc {loc:?} gid {gid} :: {}", super::e2e::describe(glyphs, axes));
+                s.oracle("simple-glyph-deltas-ok", matches!(real, Ok(Some(_))), input, || canon.clone());
+                s.case("skrifa simple_glyph::<i32, Fixed> (16.16 deltas)",
+                    format!("ap.simple {axes} {} {} | {} | {} | {}", if shared.is_empty() { "-".into() } else { hex(&shared) }, if gdata.is_empty() { "-".into() } else { hex(&gdata) }, ints(loc), ints(&ends), pts_str(&points)), canon);
+                let Ok(Some(deltas)) = real else { continue };
+                // exact-rational oracle with the proved bound
+                let mut worst_slack = f64::MAX;
+                for k in 0..points.len() { for axis in 0..2 {
+                    let (num, den, bound) = exact_and_bound(g, loc, k, axis);
+                    let got = if axis == 0 { deltas[k].0 } else { deltas[k].1 } as f64;
+                    let want = 65536.0 * num as f64 / den as f64;
+                    let err = (got - want).abs();
+                    worst_slack = worst_slack.min(bound + 1e-3 - err);
+                    s.oracle("applied-deltas-within-proved-bound", err <= bound + 1e-3, input, || format!("point {k} axis {axis}: 16.16 delta {got} exact*65536 {want} |err| {err} bound {bound}"));
+                } }
+                s.count(&format!("apply:slack~{}", if worst_slack >= 100.0 { ">=100" } else if worst_slack >= 1.0 { "1-100" } else { "<1 (tight)" }));
+                // the drawn outline = model's rounding of exactly these deltas
+                let og = outlines.get(GlyphId::new(gid as u32)).unwrap();
+                let cs: Vec<F2Dot14> = loc.iter().map(|c| F2Dot14::from_bits(*c)).collect();
+                let mut pen = super::e2e::PtPen(vec![], 0);
+                let r = catch(|| og.draw(skrifa::outline::DrawSettings::unhinted(skrifa::instance::Size::unscaled(), skrifa::instance::LocationRef::new(&cs)).with_path_style(skrifa::outline::pen::PathStyle::FreeType), &mut pen).map(|_| ()).map_err(|e| e.to_string()));
+                if !matches!(r, Ok(Ok(()))) || pen.0.len() != pts.len() || pen.1 != 0 { s.count("apply:draw-skipped"); continue; }
+                let drawn: Vec<(i32, i32)> = pen.0.iter().map(|p| (p.0 as i32, p.1 as i32)).collect();
+                let integral = pen.0.iter().all(|p| p.0.fract() == 0.0 && p.1.fract() == 0.0);
+                s.oracle("unscaled-freetype-outline-is-integral", integral, input, || format!("{:?}", pen.0));
+                s.case("draw (unscaled, FreeType style) = points + Fixed::to_i32(deltas) - pp1.x", format!("ap.adjust | {} | {}", pts_str(&points), pts_str(&deltas)), pts_str(&drawn));
+            }
+        }
+    }
+
+    pub fn run(cfg: &Config, s: &mut Session, rng: &mut Rng) {
+        scalar_cases(s, rng, if cfg.thorough() { 60_000 } else { 4000 });
+        accumulate_cases(s, rng, if cfg.thorough() { 20_000 } else { 1200 });
+        let n = if cfg.thorough() { 3000 } else { 120 };
+        for i in 0..n {
+            let axes = 1 + rng.below(3) as usize;
+            let ng = 1 + rng.below(3) as usize;
+            let mut pool = vec![];
+            let glyphs: Vec<Gl> = (0..ng).map(|_| super::e2e::gen_glyph(rng, axes, &mut pool, i % 60 == 59)).collect();
+            simple_cases(s, rng, &glyphs, axes);
+        }
+    }
+}
+
 fn run(cfg: &Config, s: &mut Session) {
     let mut rng = Rng::new(cfg.seed);
     packed::run(cfg, s, &mut rng);
     iup::run(cfg, s, &mut rng);
     reader::run(cfg, s, &mut rng);
     gdata::run(cfg, s, &mut rng);
+    apply::run(cfg, s, &mut rng);
     e2e::run(cfg, s, &mut rng);
 }
 
